@@ -115,6 +115,8 @@ class KeplerianImpulsiveMan(ImpulsiveMan):
         return txt
 
     def dv(self, orb, **kwargs):
+        orb = orb.copy(form="cartesian")
+
         self._dv = dkep2dv(orb, da=self.da, di=self.di, dOmega=self.dOmega)
 
         # dv converted to the inertial frame
